@@ -6,13 +6,14 @@ CONSTANTS
   NP = 1
   Names = {"a"}
   Vals = {1, 2}
-  Acts = {"CreateGroup", "CreateObject", "AddData", "Rename", "SetVal", "Move", "AddToGroup", "RemoveFromGroup", "RemovePG", "RemoveViaWorkspace", "RemoveViaParent", "DropRef", "Collect", "Purge", "LookupDead", "Copy", "Close", "Open", "MoveSame"}
+  Acts = {"CreateGroup", "CreateObject", "AddData", "Rename", "SetVal", "Move", "AddToGroup", "RemoveFromGroup", "RemovePG", "RemoveViaWorkspace", "RemoveViaParent", "DropRef", "Collect", "Purge", "LookupDead", "Copy", "Close", "Open", "MoveSame", "CreateDeferred"}
   Deviations = {"CloseKeepsOrphans"}
-  MaxDepth = 7
+  MaxDepth = 6
 CONSTRAINT DepthBound
 VIEW vw
 INVARIANT TypeOK
 INVARIANT DirtyOnlyInRW
+INVARIANT W2WellFormed
 INVARIANT ReopenEqualsLive
 INVARIANT LinksToNodes
 INVARIANT OneParent
@@ -23,6 +24,7 @@ INVARIANT RegistryMatchesMemory
 PROPERTY Footprint
 PROPERTY FrozenFile
 PROPERTY OptStaysStripped
+PROPERTY FreshOnlyWhenTaken
 INVARIANT ExportState
 ACTION_CONSTRAINT ExportTrans
 CHECK_DEADLOCK FALSE
